@@ -78,7 +78,7 @@ func zzParam(s *State, a []Value) Value {
 	name := s.strArg(a[0])
 	v, ok := s.W.Job.Params[name]
 	if !ok {
-		if name == "json" || name == "shared" {
+		if name == "json" || name == "shared" || name == "preboom" {
 			return "" // optional: a concrete document instead of the symbolic one
 		}
 		s.abort("missing job parameter %q", name)
